@@ -189,6 +189,22 @@ fn check_spec(r: &RefSpec, way: Way) -> Result<bool, Fail> {
                 });
             }
             let q = logger.enabled(&log::Metadata::builder().level(l).target(t).build());
+            // the target decides, not the module path the record carries
+            if !matches!(way, Way::ParseFilterFwd | Way::ParseFilterSwallow) {
+                for module in [Some("a::b"), Some("c"), None] {
+                    rec.take();
+                    lg::log_with_module(&*logger, l, t, module, MSGS[0]);
+                    let written = rec.take().len();
+                    let want = r.passes(l, t, MSGS[0]);
+                    if written != usize::from(want) {
+                        return Err(Fail {
+                            clause: "written!=ref",
+                            cause: format!("{}/{}/module-path-differs", shape(r), target_class(r, t)),
+                            detail: format!("{way:?} spec `{}`: log({l}, target {t:?}, module path {module:?}, {:?}) written {written}x, reference (by target) says {}", r.text(), MSGS[0], usize::from(want)),
+                        });
+                    }
+                }
+            }
             for m in MSGS {
                 rec.take();
                 asked.lock().unwrap().clear();
